@@ -107,7 +107,8 @@ DriveOut drive_reader(const Task &t, const Bytes &archive, const DriveOpts &o) {
 	if (!st) {
 		out.open_failed = true;
 		if (!fired_before && !g_sim.fail_fired && !o.by_name) out.alloc_fail_detail = "stream creation failed without an injected fault";
-		if (src->fp && !src->closed) fclose(src->fp);
+		// a FILE the caller opened is the caller's to close; one the library opened by name is the library's
+		if (!o.by_name && src->fp && !src->closed) fclose(src->fp);
 	}
 	if (st) {
 		fired_before = g_sim.fail_fired;
@@ -247,13 +248,14 @@ DriveOut drive_reader(const Task &t, const Bytes &archive, const DriveOpts &o) {
 	g_sim.cur_state = state;
 	if (rd) { LibScope ls("reader_free"); lha_reader_free(rd); }
 	if (st) { LibScope ls("stream_free"); lha_input_stream_free(st); }
-	if (src->fp && !src->closed) fclose(src->fp);   // FILE kinds: the caller owns the FILE
+	if (!o.by_name && src->fp && !src->closed) fclose(src->fp);   // FILE kinds: the caller owns the FILE
 	out.freed = true;
 	t_budget_jb = saved_jb;
 	g_sim.budget = saved_budget;
 	out.src_reads = src->reads; out.src_skips = src->skips; out.src_bytes = src->bytes; out.src_seeks = src->seeks;
 	out.peak_heap = g_sim.peak_bytes;
 	out.open_handles_after = g_sim.open_handles - handles_before;
+	if (o.by_name && src->fp && !src->closed) fclose(src->fp);   // measured as a leaked handle above; tidy the simulator
 	if (o.ledger) {
 		for (auto &e : g_sim.live) {
 			out.leaked_blocks++;
